@@ -84,6 +84,7 @@ SPEC_M = [
         "_send_data_in_chunks"]),
 ]
 SPEC_M.append(("ledger.hsm2dongle", "HSM2Dongle", ["reset_advance_blockchain", "sign_authorized"]))
+SPEC_M.append(("ledger.hsm2dongle", "HSM2Dongle", ["_send_pin", "unlock", "new_pin", "onboard", "authorize_signer"]))
 # functions of the repository that are thin wrappers around a third-party library: pure oracles
 ORACLE_FUNCS = {("comm.bitcoin", "encode_varint")}
 SPEC_M.append(("ledger.protocol", "HSM2ProtocolLedger", [
@@ -312,6 +313,7 @@ def assigned_names(stmts):
             elif isinstance(n, ast.Expr) and isinstance(n.value, ast.Call) and isinstance(n.value.func, ast.Attribute) \
                     and n.value.func.attr == "append" and isinstance(n.value.func.value, ast.Name):
                 tgt = [n.value.func.value]
+            tgt = [x for t in tgt for x in (t.elts if isinstance(t, ast.Tuple) else [t])]
             for t in tgt:
                 if isinstance(t, ast.Name) and t.id not in out:
                     out.append(t.id)
@@ -379,6 +381,8 @@ class FuncTr:
                  "nested function that is not a parameterless raising helper", st)
             self.local_funcs[st.name] = st
             return self.stmts(rest, k, ret)
+        if isinstance(st, ast.Raise) and self.M and isinstance(st.exc, ast.Name) and st.exc.id in self.excvars:
+            return "PRaiseX e_%s" % ident(st.exc.id)
         if isinstance(st, ast.Raise):
             x = self.exc_of(st)
             return ("PRaiseX %s" % x[2:]) if x.startswith("@X") else ("PRaise %s" % x)
@@ -626,19 +630,37 @@ class FuncTr:
 
     def for_(self, st, rest, k, ret):
         need(not st.orelse, "for-else", st)
-        need(not contains(st.body, (ast.Return,)) and not contains_at_level(st.body, (ast.Break, ast.Continue)),
-             "for body leaves the loop", st)
-        need(isinstance(st.target, ast.Name), "for target", st)
-        names = [n for n in assigned_names(st.body) if n != st.target.id]
+        need(not contains_at_level(st.body, (ast.Break, ast.Continue)), "break / continue in a for loop", st)
+        returning = contains(st.body, (ast.Return,))
+        need(self.M or not returning, "for body returns", st)
+        if isinstance(st.target, ast.Name):
+            tnames = [st.target.id]
+            tpat = self.v(st.target.id)
+        else:
+            need(isinstance(st.target, ast.Tuple) and all(isinstance(x, ast.Name) for x in st.target.elts), "for target", st)
+            tnames = [x.id for x in st.target.elts]
+            tpat = None
+        names = [n for n in assigned_names(st.body) if n not in tnames]
         tup = "VList [%s]" % "; ".join(self.v(n) for n in names)
         init_tup = self.init_tuple(names, st)
-        body = self.stmts(st.body, "POk (%s)" % tup, lambda e: "PStuck")
         it = self.fresh()
         itx = self.expr(st.iter)
+        if returning:
+            body = self.stmts(st.body, "POk (VList [VInt 0%%Z; %s])" % tup,
+                              lambda e: "pbind (%s) (fun rv_ => POk (VList [VInt 2%%Z; rv_]))" % e)
+        else:
+            body = self.stmts(st.body, "POk (%s)" % tup, lambda e: "PStuck")
+        if tpat is None:
+            body = "match x_ with VList [%s] => %s | _ => PStuck end" % ("; ".join(self.v(n) for n in tnames), body)
+            tpat = "x_"
         kk = self.stmts(rest, k, ret)
+        if returning:
+            return ("pbind (%s) (fun %s => pbind (py_for_t %s (%s) (fun st_ %s => match st_ with %s => %s | _ => PStuck end))\n"
+                    "  (fun r_ => match r_ with\n   | VList [VInt 2%%Z; rv_] => %s\n   | VList [VInt 1%%Z; %s] => %s\n"
+                    "   | _ => PStuck end))" % (itx, it, it, init_tup, tpat, tup, body, ret("POk rv_"), tup, kk))
         return ("pbind (%s) (fun %s => pbind (py_for %s (%s) (fun st_ %s => match st_ with %s => %s | _ => PStuck end))\n"
                 "  (fun st_ => match st_ with %s => %s | _ => PStuck end))"
-                % (itx, it, it, init_tup, self.v(st.target.id), tup, body, tup, kk))
+                % (itx, it, it, init_tup, tpat, tup, body, tup, kk))
 
     # ----- helpers -----
     def exc_of(self, st):
@@ -1143,6 +1165,12 @@ class FuncTr:
                 if "int_oracle_" not in self.extra_params:
                     self.extra_params.append("int_oracle_")
                 return self.binds(e.args, lambda a: "py_int_base int_oracle_ %s %s" % (a[0], a[1]))
+            if n == "range" and len(e.args) == 1 and not e.keywords:
+                return self.binds(e.args, lambda a: "py_range %s" % a[0])
+            if n == "enumerate" and len(e.args) in (1, 2) and not e.keywords:
+                if len(e.args) == 1:
+                    return self.binds(e.args, lambda a: "py_enumerate %s (VInt 0%%Z)" % a[0])
+                return self.binds(e.args, lambda a: "py_enumerate %s %s" % (a[0], a[1]))
             if n == "str" and len(e.args) == 1 and not e.keywords:
                 return self.binds(e.args, lambda a: "py_str %s" % a[0])
             enum_vals = self.enum_values(n)
@@ -1205,10 +1233,11 @@ class FuncTr:
             if f.attr == "to_bytes" and len(e.args) == 1:
                 kw = {k_.arg: k_.value for k_ in e.keywords}
                 need(set(kw) <= {"byteorder", "signed"} and isinstance(kw.get("byteorder"), ast.Constant)
-                     and kw["byteorder"].value == "little"
+                     and kw["byteorder"].value in ("little", "big")
                      and ("signed" not in kw or (isinstance(kw["signed"], ast.Constant) and kw["signed"].value is False)),
                      "to_bytes options", e)
-                return self.binds([f.value, e.args[0]], lambda a: "py_to_bytes_le %s %s" % (a[0], a[1]))
+                opn = "py_to_bytes_le" if kw["byteorder"].value == "little" else "py_to_bytes_be"
+                return self.binds([f.value, e.args[0]], lambda a: "%s %s %s" % (opn, a[0], a[1]))
             if f.attr == "hex" and not e.args and not e.keywords:
                 return self.binds([f.value], lambda a: "py_hex %s" % a[0])
             if f.attr == "encode" and len(e.args) == 1 and isinstance(e.args[0], ast.Constant) \
